@@ -91,13 +91,26 @@ KINDS_8 = ("WHOLE-FUNCTION REWRITES in the style of an AI coding assistant asked
            "enumerate(..., start=k), zip / starred unpacking (first, *rest), walrus assignments. Pay attention to the edge cases "
            "the original handles (empty, scalar, dim 1, negative axis, None vs empty tuple, depth 0, integer inputs) and keep "
            "each of them EXACTLY as it is - that is the point of this round")
+KINDS_9 = ("ALTERNATIVE CORRECT IMPLEMENTATIONS: pick a function or method with non-trivial control flow, index logic, state "
+           "or validation and re-implement it with a DIFFERENT ALGORITHM or STRUCTURE that is equivalent for every input: a "
+           "while-loop with an explicit counter instead of for + break (or the reverse); a small private helper class / "
+           "dataclass / NamedTuple that carries the loop state and has methods (update, should_stop, result); a private "
+           "generator or iterator helper that yields the items (epochs, batches, layers, nesting levels) the main function "
+           "consumes; a running minimum / running best instead of min-of-the-whole-list (PRESERVE the tie behaviour exactly); "
+           "index bookkeeping instead of list slicing and reversing; recursion instead of iteration (or the reverse); a "
+           "precomputed table or dict dispatch instead of branching; carrying a vector instead of a matrix where the last "
+           "dimension is 1; validation by set / length arithmetic instead of element loops; helper conversion functions for "
+           "repeated casts (keeping the exact dtype and weak-type behaviour); splitting one constructor into classmethod / "
+           "private builders; keyword dictionaries built once and splatted into several calls. Every edge case of the original "
+           "(empty, zero iterations, depth 0, dim 1, ties, None vs (), integer inputs, first/last element) must behave EXACTLY "
+           "as before, floating point operations must happen in the same order, PRNG keys must be consumed identically")
 base = json.load(open("/root/.vp/BASELINE.json"))
 os.makedirs(root, exist_ok=True)
 open(f"{root}/baseline_stable_pass.txt", "w").write("\n".join(base["stable_pass"]) + "\n")
 open(f"{root}/baseline_always_fail.txt", "w").write("\n".join(base.get("always_fail", [])) + "\n")
 for a, area in areas.items():
     wt = f"{root}/wt_{a}"
-    kinds = KINDS_1 if rnd == 1 else KINDS_8 if rnd >= 8 else KINDS_7 if rnd == 7 else KINDS_6 if rnd == 6 else KINDS_5 if rnd == 5 else KINDS_4 if rnd == 4 else KINDS_2
+    kinds = KINDS_1 if rnd == 1 else KINDS_9 if rnd >= 9 else KINDS_8 if rnd == 8 else KINDS_7 if rnd == 7 else KINDS_6 if rnd == 6 else KINDS_5 if rnd == 5 else KINDS_4 if rnd == 4 else KINDS_2
     open(f"{root}/prompt_{a}.txt", "w").write(f"""You are helping test a code-analysis tool for false alarms. You work ONLY inside your own scratch git worktree: {wt} (a detached worktree of the Python library flowjax, a JAX/Equinox library of bijections, distributions, normalizing flows and training loops). Do NOT read or write anything under /verif, /root/.vp, /root/.claude, /repo, or any other directory under /tmp.
 
 TASK: produce SIX independent, strictly BEHAVIOUR-PRESERVING refactorings (call them R1..R6) of the library source in this area: {area}. Each must be the kind of commit a maintainer would plausibly make and a reviewer would accept as a pure refactor / clean-up, for example: {kinds}. Make them non-trivial (each should touch at least a few lines of real code, not only comments) and DIFFERENT in kind from each other; spread them over the files of the area. They must NOT change any observable behaviour for any input (values, shapes, errors raised and their types, randomness/key usage, gradients, pytree structure of the models, numerical stability: do not replace a numerically stable formula by a mathematically equivalent unstable one, and do not change the order of floating-point operations).
